@@ -220,4 +220,33 @@ def clientClose {σ : Type} (W : Writer σ) (w : σ) (s : CState) (bytesPerBlock
       else (.oob, [], w)     -- the loop would read past `state->buffer`
   else (.ok, [], w)
 
+/-- A sequence of `archive_write_client_write` calls on one open client filter,
+up to and including the first call that reports failure.  Returns the status
+and the callback invocations of every call made, the filter state if no call
+failed, and the callback state. -/
+def runWrites {σ : Type} (W : Writer σ) (w : σ) (s : CState) :
+    List (List Cell) → List (St × List Event) × Option CState × σ
+  | [] => ([], some s, w)
+  | d :: ds =>
+    let r := clientWrite W w s d
+    if r.1 = .ok then
+      let t := runWrites W r.2.2.2 r.2.1 ds
+      ((r.1, r.2.2.1) :: t.1, t.2.1, t.2.2)
+    else ([(r.1, r.2.2.1)], none, r.2.2.2)
+
+/-- One life of the client filter: open with `bytesPerBlock`, the writes `ds`,
+then close (padding per `bytesInLastBlock`) — stopping at the first call that
+reports failure.  One `(status, invocations)` pair per call made. -/
+def session {σ : Type} (W : Writer σ) (w : σ) (bytesPerBlock : Nat) (bytesInLastBlock : Int)
+    (ds : List (List Cell)) : List (St × List Event) × σ :=
+  let t := runWrites W w (clientOpen bytesPerBlock) ds
+  match t.2.1 with
+  | none => (t.1, t.2.2)
+  | some s =>
+    let c := clientClose W t.2.2 s bytesPerBlock bytesInLastBlock
+    (t.1 ++ [(c.1, c.2.1)], c.2.2)
+
+/-- All callback invocations of a list of calls, in order. -/
+def allEvents (l : List (St × List Event)) : List Event := (l.map (·.2)).flatten
+
 end LA.CW
